@@ -222,7 +222,9 @@ func (d *Decoder) popVector(as reflect.Type, ignoreCRC bool) any {
 		return nil
 	}
 
-	x := reflect.MakeSlice(reflect.SliceOf(as), int(size), int(size))
+	// the slice grows as elements are decoded: with all `size` slots allocated up front, nested vectors
+	// that each claim every byte left cost memory quadratic in the input (48 KB of input took 1.5 GB)
+	x := reflect.MakeSlice(reflect.SliceOf(as), 0, 0)
 	for i := 0; i < int(size); i++ {
 		var val reflect.Value
 		if as.Kind() == reflect.Ptr {
@@ -236,7 +238,7 @@ func (d *Decoder) popVector(as reflect.Type, ignoreCRC bool) any {
 			return nil
 		}
 
-		x.Index(i).Set(val)
+		x = reflect.Append(x, val)
 	}
 
 	return x.Interface()
